@@ -77,6 +77,10 @@ func Family(tier string, extraLens []int) []tmpl.Env {
 	nul := tmpl.MethodShape{}
 	one(tmpl.MockShape{Methods: []tmpl.MethodShape{nul, big}})
 	one(tmpl.MockShape{Methods: []tmpl.MethodShape{{NParams: 1, NResults: 1}, {NParams: 1, Variadic: true}}})
+	// variadic tails of element type any: dropping the `...` spread still type-checks there
+	for p := 1; p <= maxP; p++ {
+		one(tmpl.MockShape{Methods: []tmpl.MethodShape{{NParams: p, Variadic: true, AnyTail: true, NResults: 0}, {NParams: p, Variadic: true, AnyTail: true, NResults: 2}}})
+	}
 	// generic mocks
 	for _, tps := range [][]tmpl.TPShape{{{}}, {{Explicit: true}}, {{}, {Explicit: true}}} {
 		one(tmpl.MockShape{TypeParams: tps, Methods: []tmpl.MethodShape{big, nul}})
